@@ -290,7 +290,7 @@ Proof.
   - rewrite <- fnv1a_val_is_ref, N2Z.id by exact Hall.
     rewrite w16_mod, !w32_mod. unfold M32. f_equal. modlia.
   - apply N.leb_gt in Hle.
-    unfold takeN, dropN. change (N.to_nat 512) with 512%nat.
+    rewrite takeN_firstn, dropN_skipn. change (N.to_nat 512) with 512%nat.
     replace (N.to_nat (l - 512)) with (length v - 512)%nat by (unfold l; lia).
     rewrite <- !fnv1a_val_is_ref, !N2Z.id by (apply allbytes_firstn || apply allbytes_skipn; exact Hall).
     rewrite w16_mod, !w32_mod. unfold M32. f_equal.
